@@ -1,5 +1,6 @@
 import SoundeventModel.Ops.Common
 import SoundeventModel.Aoef.Closure
+import SoundeventModel.Aoef.Session
 namespace SE.Ops.C18
 open Lean SE SE.Aoef SE.Paths
 
@@ -17,6 +18,24 @@ def optDir (a : Json) (k : String) : Except String (Option PPath) :=
   match fldOpt a k with
   | none => .ok none
   | some v => do return some (parse (← v.getStr?))
+
+/-- one step of a session: `{"do": "put" | "move" | "save" | "load" | "copy" | anything else, …}`
+    (the harness names the cells: files as they are, in-memory documents with a prefix) -/
+def sessionStep (st : Json) : Except String Session.Step := do
+  match ← fldStr st "do" with
+  | "put" => return .put (← fldStr st "obj") (← fromJson? (← fld st "collection"))
+  | "move" => return .move (← fldStr st "obj") (parse (← fldStr st "src")) (parse (← fldStr st "dst"))
+  | "save" => return .save (← fldStr st "obj") (← fldStr st "file") (← optDir st "audio_dir")
+  | "load" => return .load (← fldStr st "file") (← optDir st "audio_dir") (← fldStr st "into")
+  | "copy" => return .copy (← fldStr st "from") (← fldStr st "to")
+  | _ => return .skip
+
+def sessionOutJ : Session.Out → Json
+  | .recs xs => valJ (pairsJ xs)
+  | .stored xs => valJ (pairsJ xs)
+  | .fail e => raiseJ e
+  | .missing => Json.mkObj [("raise", Json.str "missing")]
+  | .nothing => Json.null
 
 def handle (op : String) (a : Json) : Except String Json := do
   match op with
@@ -83,6 +102,11 @@ def handle (op : String) (a : Json) : Except String Json := do
         let tail ← go c' rest
         pure (exceptJ pairsJ (c'.map recPaths) :: tail)
     return arrJ (← go (.ok c) steps)
+  | "session" =>
+    -- several saves / loads in one process over named live objects and named files
+    -- (`SoundeventModel/Aoef/Session.lean`): the output of every step
+    let steps ← (← fldArr a "steps").mapM sessionStep
+    return arrJ ((Session.run Session.State.empty steps).map sessionOutJ)
   | _ => .error s!"C18: unknown op {op}"
 
 end SE.Ops.C18
